@@ -77,6 +77,10 @@ class TWebSocket:
             # WebSocket handshake (what simple-websocket / eventlet raise)
             self.conn.server_closed = True
             raise BrokenPipeError('client gone during the handshake')
+        d = getattr(self.conn, 'accept_delay', 0)
+        if d:
+            # the driver's own part of the handshake takes a while
+            vsched.vsleep(self.sim.sched, d)
         self.conn.accepted = True
         self.conn.accept_clk = self.sim.tick()
         if self.conn.on_accept is not None:
